@@ -514,6 +514,8 @@ func exec(line string) (out, label string, nontrivial bool, fails []fail) {
 		return execAccounts(ws)
 	case "hold", "recheck", "stress":
 		return execHeld(ws)
+	case "fexp", "vmulti":
+		return execR7(ws)
 	case "xread", "xreadb":
 		if len(ws) != 10 || !isIn(ws[1], readEntries) {
 			return bad()
@@ -607,6 +609,16 @@ func execCall(kind, entry string, a callArgs) (out, label string, nontrivial boo
 				return ""
 			})
 		}
+	case "f":
+		// fexp arranged the cached friend list, the file and the load time itself: nobody moderates, nobody is named
+		idx := a.bid.ToBidInStore()
+		for k := range cache.Shm.Shm.BMCache[idx] {
+			cache.Shm.Shm.BMCache[idx][k] = uidFiller
+		}
+		cache.Shm.Shm.BCache[idx].BM = ptttype.BM_t{}
+		delete(modState, a.bid)
+		f = *a.pre
+		f.attr, f.blevel = boardNow(a.bid)
 	case "m":
 		// moderator cache and moderator string are what the resetbm history left; only the friend file is arranged
 		setFriendOnly(a.bid, a.friend, a.rawID)
